@@ -430,6 +430,9 @@ func genPomDocs(thorough bool) []*pomDoc {
 		for _, pk := range dupKinds {
 			for _, m := range bools {
 				for _, sh := range bools {
+					if sh && !thorough {
+						continue
+					}
 					for pf := 0; pf <= 2; pf++ {
 						add("two-origins", pomOpt{Deps: true, Mgmt: m, PropKind: pk, Shared: sh, Profile: pf, Plugin: dup == 3, Dup: dup}, subA, rotA)
 					}
@@ -558,8 +561,8 @@ func explorePomDoc(r *ev.Run, d *pomDoc) {
 			return
 		}
 		for t := range pomTargets {
-			if len(sub) >= 2 && !r.Thorough() && t%2 == 1 {
-				continue // quick: sets of >= 2 updates get the uniform targets 2.0, 3.0.0-jre, 1.1 plus the rotated assignment
+			if len(sub) >= 2 && !r.Thorough() && t != 0 && t != 4 {
+				continue // quick: sets of >= 2 updates get the uniform targets 2.0 and 1.1 plus the rotated assignment
 			}
 			cs := base
 			for _, idx := range sub {
